@@ -8,12 +8,12 @@ REPO=${VERIF_REPO:?set VERIF_REPO to a scratch checkout}
 for d in "$BASE"/seeded/S*/; do
   s=$(basename "$d"); own=$(echo "$s" | sed 's/^S[0-9]*-\(C[0-9]*\)-.*/\1/')
   others=$(python3 -c "import json,sys;m=json.load(open(sys.argv[1]));print(' '.join(x for x in m.get('caught_by_quick_checks',[]) if x!=sys.argv[2]))" "$d/meta.json" $own)
-  git -C "$REPO" checkout -q -- . ; git -C "$REPO" apply "$d/patch.diff" || { echo "$s PATCH-FAILED"; continue; }
+  git -C "$REPO" checkout -q -- . ; git -C "$REPO" clean -fdq ; git -C "$REPO" apply "$d/patch.diff" || { echo "$s PATCH-FAILED"; continue; }
   res=MISSED
   for p in $own $others; do
     "$BASE/run.sh" $p quick > "$BASE/.work/own_$s.log" 2>&1; rc=$?
     case $rc in 1) res="CAUGHT $p"; break;; 0) ;; *) res="INCONCLUSIVE $p rc=$rc $(grep -m1 INCONCLUSIVE "$BASE/.work/own_$s.log" | cut -c1-150)";; esac
   done
   echo "$s $res"
-  git -C "$REPO" checkout -q -- .
+  git -C "$REPO" checkout -q -- . ; git -C "$REPO" clean -fdq
 done
